@@ -24,7 +24,7 @@ THEOREMS = [
     "C28.sleep_past_target_counter",
 ]
 RULE = ("random scripts of 2..14 calls (schedule/schedule_relative/schedule_absolute of action trees of depth <=3 that schedule, "
-        "cancel, sleep and stop; cancel; advance_to around the clock; advance_by; sleep; start; stop) on real TestScheduler, "
+        "cancel, sleep, stop and make re-entrant advance_to/advance_by/start calls on the running scheduler; cancel; advance_to around the clock; advance_by; sleep; start; stop) on real TestScheduler, "
         "VirtualTimeScheduler and HistoricalScheduler (datetime clock), small time alphabet so equal due times are common; plus "
         "PriorityQueue op scripts; plus multi-start scripts (2..4 start() rounds of 40..99 — sometimes >101 — actions at one unchanged "
         "instant, rounds ended by draining or by an action calling stop()); compared with the Lean model on executed-action log (id, clock at run), per-call outcome, "
@@ -51,7 +51,7 @@ def _finding_listed(fid):
 def gen_script(rng, kind=None, raise_p=0.02):
     kind = kind or rng.choice(["test", "vts", "hist", "hist"])
     unit = 500 if kind == "hist" else 1
-    g = vc.Gen(rng, unit=unit, raise_p=raise_p)
+    g = vc.Gen(rng, unit=unit, raise_p=raise_p, ctl_p=rng.choice([0.0, 0.0, 0.15, 0.3]))
     c0 = unit * rng.choice([0, 0, 0, 5, 100])
     clock = c0  # rough tracking, only to aim targets
     ops = []
